@@ -245,7 +245,11 @@ class XPath1Parser(Parser[ta.XPathTokenType]):
         if self.tokenizer is None:
             self.tokenizer = self.create_tokenizer(self.symbol_table)
 
-        root_token = super().parse(source)
+        try:
+            root_token = super().parse(source)
+        finally:
+            self.parse_arguments = True  # left False by a failed arrow operator parse
+
         if root_token.label in ('sequence type', 'function test'):
             raise root_token.error('XPST0003', "not allowed in XPath expression")
 
